@@ -11,16 +11,19 @@
         set of non-overlapping selected fields.
     (3) vs_counts_consistent (full): record count after VSwrite in M (max of old count and position / ivsize + n)
         and in S (length of the table), the offsets VSsetfields stores, and S's read-after-write on tables.
-    (4) vsread_after_vswrite_partial: cases C/C (user and file FULL_INTERLACE, the chunked path) for one pass
-        through the transfer buffer: every schema, every record count, every field subset and permutation on
-        read; the bytes VSread delivers are the bytes VSwrite was given.  See the comment at the theorem for the
-        full statement and what is missing.
+    (4) vsread_after_vswrite_partial: user and file FULL_INTERLACE (cases C/C, the chunked path), through the
+        model's entry points m_vswrite / m_vsread: every schema of at least two fields, every record count, every
+        transfer-buffer size before either call (so: any number of passes through Vtbuf, split differently by
+        the two calls), every field subset and permutation on read -- the byte VSread delivers at (record,
+        selected field, component, byte) is the byte VSwrite was given there.  One-pass versions for the
+        single-field case E and the two halves (vswrite_pass_fills_records, vsread_pass_projects) are separate
+        theorems.  See the comment at the theorem for the full statement and what is missing.
     (5) gather_scatter_generic (full): the lemma every case reduces to -- any sequence of DFKconvert calls whose
         destination cells do not overlap moves exactly the cells it names and nothing else.
     (6) model_follows_source: the conversion-call / pointer-update skeleton of VSread and VSwrite and the field
         order of the header codec in the CURRENT vrw.c / vio.c are the ones the model was written from. *)
 From Coq Require Import ZArith List Bool Lia.
-Require Import H4.gen.Gen_VS H4.VSModel H4.VTableSpec H4.VSProofs H4.VSCodecProofs.
+Require Import H4.gen.Gen_VS H4.VSModel H4.VTableSpec H4.VSProofs H4.VSCodecProofs H4.VSChunkProofs.
 Import ListNotations.
 Local Open Scope Z_scope.
 
@@ -60,25 +63,48 @@ Qed.
 Print Assumptions vs_counts_consistent.
 
 (** (4) read after write.
-    FULL statement of the property at model level (not yet proved in this generality):
-      for every well-formed write list fl (fld_ok, offs_ok), both file interlaces fil (with whole-table transfers
+    FULL statement of the property at model level (not proved in this generality):
+      for every well-formed write list (fld_ok, offs_ok), both file interlaces fil (with whole-table transfers
       when fil = NO_INTERLACE), both user interlaces uw (write) and ur (read), every read list rl of distinct valid
       indices, every nelt > 0, every transfer-buffer size before either call, and every caller buffer ubuf of
       nelt * isum fl bytes:
         m_vswrite w fil uw nelt vtb 0 nv ubuf = Some r ->
         m_vsread w rl fil ur nelt vtb' (concat (wr_chunks r)) = Some (_, _, out) ->
         out = read_buf (ur = FULL) rl' (parse (uw = FULL) sizes nelt ubuf) 0 nelt.
-    PROVED: the case uw = ur = fil = FULL_INTERLACE with more than one field (cases C/C), for one pass through
-    Vtbuf (one iteration of the while loops of VSwrite / VSread, any chunk size n), cell by cell: the byte at
-    (record i, selected field f, component j, byte b) of the buffer VSread fills is the byte at (record i, field f,
-    component j, byte b) of the buffer VSwrite was given -- for every schema, subset and permutation.
-    MISSING: (a) induction over the chunk lists of [wr_ec_chunks] / [rd_ec_chunks] (the passes use disjoint record
-    ranges; needs the frame clauses of [wr_c_spec] / [rd_c_spec], which are proved); (b) the same reduction to
-    [run_comps_spec] for [wr_a_fields], [wr_b_fields], [wr_d_fields], [rd_a_fields], [rd_b_fields], [rd_d_fields]
-    (field-major layouts: blocks of common stride) and the single conversion of case E; for case D this needs the
-    hypothesis isize = esize, which [fld_ok] carries; (c) the list-level link from cells to [read_buf] / [parse]
-    (nth of concat of equal-size blocks).  The correspondence check compares R with S on all of these. *)
-Theorem vsread_after_vswrite_partial : forall fl rl n mu vtW mw mr0 vtR mr,
+    PROVED (this theorem): uw = ur = fil = FULL_INTERLACE, at least two fields (cases C/C), all passes of the while
+    loops with the chunk sizes the regenerated expressions of vrw.c give, cell by cell.
+    PROVED (next theorems): one pass for a single-field Vdata (case E: the generic write path and the single
+    contiguous conversion of VSread), and the write / read halves of case C with existence and frame.
+    MISSING: (a) the reduction of [wr_a_fields], [wr_b_fields], [wr_d_fields], [rd_a_fields], [rd_b_fields],
+    [rd_d_fields] to [gather_scatter_generic] (field-major layouts: blocks, each of a common stride; case D needs
+    isize = esize, which [fld_ok] carries); (b) lifting case E over the chunk lists (as done for case C in
+    [rd_chunks_spec]); (c) the list-level link from cells to [read_buf] / [parse] (nth of concat of equal-size
+    blocks).  The correspondence check compares R with S on all of these. *)
+Theorem vsread_after_vswrite_partial : forall w rl nelt vtbW pos nv ubuf r vtbR vtbR' lens out,
+  Forall fld_ok (wl_fields w) -> offs_ok 0 (wl_fields w) -> wl_ivsize w = isum (wl_fields w) ->
+  (2 <= length (wl_fields w))%nat -> rl_ok (wl_fields w) rl -> 0 < nelt ->
+  Z.of_nat (length ubuf) = nelt * isum (wl_fields w) ->
+  m_vswrite w FULL_INTERLACE FULL_INTERLACE nelt vtbW pos nv ubuf = Some r ->
+  m_vsread w rl FULL_INTERLACE FULL_INTERLACE nelt vtbR (concat (wr_chunks r)) = Some (vtbR', lens, out) ->
+  forall f eo uo, In (f, eo) (foffs 0 (wl_fields w)) -> In (f, uo) (roffs (wl_fields w) rl 0) ->
+  forall j I b, 0 <= j < w_order f -> 0 <= I < nelt -> 0 <= b < fw f ->
+    nth (Z.to_nat (I * rsum (wl_fields w) rl + uo + j * fw f + b)) out 0 =
+    nth (Z.to_nat (I * isum (wl_fields w) + eo + j * fw f + b)) ubuf 0.
+Proof. exact vsread_after_vswrite_full_full_lemma. Qed.
+Print Assumptions vsread_after_vswrite_partial.
+
+(** the transfer plans: the chunk sizes both calls use are positive and add up to the record count *)
+Theorem transfer_plans_cover_all_records : forall hsize nelt vtb, 0 < hsize -> 0 < nelt ->
+  Forall (fun c => 0 < c) (p_chunks (write_plan hsize nelt vtb)) /\ zsum (p_chunks (write_plan hsize nelt vtb)) = nelt /\
+  Forall (fun c => 0 < c) (p_chunks (read_plan hsize nelt vtb)) /\ zsum (p_chunks (read_plan hsize nelt vtb)) = nelt.
+Proof.
+  intros hsize nelt vtb H1 H2.
+  exact (conj (proj1 (write_plan_ok hsize nelt vtb H1 H2)) (conj (proj2 (write_plan_ok hsize nelt vtb H1 H2)) (read_plan_ok hsize nelt vtb H1 H2))).
+Qed.
+Print Assumptions transfer_plans_cover_all_records.
+
+(** one pass, cases C/C, at the level of the field loops *)
+Theorem vsread_after_vswrite_one_pass : forall fl rl n mu vtW mw mr0 vtR mr,
   Forall fld_ok fl -> offs_ok 0 fl -> rl_ok fl rl -> 0 < n ->
   n * isum fl <= vtW -> n * rsum fl rl <= vtR ->
   wr_ec_fields fl mu vtW 0 0 n (isum fl) (isum fl) = Some mw ->
@@ -87,7 +113,18 @@ Theorem vsread_after_vswrite_partial : forall fl rl n mu vtW mw mr0 vtR mr,
   forall j i b, 0 <= j < w_order f -> 0 <= i < n -> 0 <= b < fw f ->
     mr (uo + j * fw f + i * rsum fl rl + b) = mu (eo + j * fw f + i * isum fl + b).
 Proof. exact rw_c_pass. Qed.
-Print Assumptions vsread_after_vswrite_partial.
+Print Assumptions vsread_after_vswrite_one_pass.
+
+(** one pass, cases E/E: a single-field Vdata (VSread converts the whole chunk with one contiguous call) *)
+Theorem vsread_after_vswrite_single_field_pass : forall f n mu vtW mw mr0 vtR mr,
+  fld_ok f -> w_off f = 0 -> 0 < n ->
+  n * w_isize f <= vtW -> n * w_esize f <= vtR ->
+  wr_ec_fields [f] mu vtW 0 0 n (w_isize f) (w_isize f) = Some mw ->
+  ConvModel.spec_convert (load mr0 vtR (mem_slice mw vtW (w_isize f * n))) vtR 0 (w_type f) (w_order f * n) 0 0 = Some mr ->
+  forall j i b, 0 <= j < w_order f -> 0 <= i < n -> 0 <= b < fw f ->
+    mr (j * fw f + i * w_esize f + b) = mu (j * fw f + i * w_isize f + b).
+Proof. exact rw_e_pass. Qed.
+Print Assumptions vsread_after_vswrite_single_field_pass.
 
 (** the two halves separately, with existence of the results and the frame (nothing else is touched) *)
 Theorem vswrite_pass_fills_records : forall fl m vt P n isz hs,
@@ -139,13 +176,16 @@ Proof.
   - repeat constructor; [exists 4|exists 2|exists 8]; vm_compute; intuition discriminate.
   - repeat constructor; eexists; vm_compute; reflexivity.
 Qed.
-(** the model run on a 2-record buffer: 16-byte records in (case C), fields C and A out field-major (case A) *)
+(** the model run on a 2-record buffer: 16-byte records in (case C), fields C and A out record-major (case C, the
+    proved case) and field-major (case A) *)
 Example ex_write_read :
   let w := mkwl ex_fl 16 in
   let ubuf := map Z.of_nat (seq 1 32) in
   match m_vswrite w FULL_INTERLACE FULL_INTERLACE 2 0 0 0 ubuf with
   | Some r => wr_nvert r = 2 /\ wr_vtb r = 48 /\
               concat (wr_chunks r) = [4;3;2;1; 6;5;8;7; 9;10;11;12;13;14;15;16; 20;19;18;17; 22;21;24;23; 25;26;27;28;29;30;31;32] /\
+              m_vsread w [2; 0] FULL_INTERLACE FULL_INTERLACE 2 48 (concat (wr_chunks r)) =
+                Some (48, [32], [9;10;11;12;13;14;15;16; 1;2;3;4; 25;26;27;28;29;30;31;32; 17;18;19;20]) /\
               m_vsread w [2; 0] FULL_INTERLACE NO_INTERLACE 2 48 (concat (wr_chunks r)) =
                 Some (48, [32], [9;10;11;12;13;14;15;16; 25;26;27;28;29;30;31;32; 1;2;3;4; 17;18;19;20])
   | None => False
@@ -168,5 +208,8 @@ Proof.
 Qed.
 Example ex_sel_ok : sel_ok 6 [(0, 2); (2, 4)].
 Proof. exact sel_ok_two_fields. Qed.
+Example ex_plans : p_chunks (write_plan 60000 40 0) = [17; 17; 6] /\ p_chunks (read_plan 60000 40 1020000) = [17; 17; 6] /\
+  p_chunks (read_plan 16 3 64) = [3].
+Proof. vm_compute. repeat split. Qed.
 Example ex_comps_nonempty : length (wr_c_comps ex_fl 100 0 0 16 16) = 4%nat /\ length (rd_c_comps ex_fl [2; 0] 100 0 0 16 12) = 2%nat.
 Proof. vm_compute. split; reflexivity. Qed.
